@@ -2,17 +2,9 @@
 //! verif-check --replay <file>            re-run one saved case
 //! verif-check <ID> <tier> --sub <name>   run a single sub-check (no evidence written)
 
-mod engine;
-mod wire;
-mod gen;
-mod model;
-mod traffic;
-mod syncdrv;
-mod aio;
-mod conn;
-mod props;
 
-use engine::{Ctx, Tier};
+use fcgi_verif::engine::{self, Ctx, Tier};
+use fcgi_verif::props;
 
 fn main() {
     engine::install_panic_hook();
